@@ -216,6 +216,18 @@ func caseBlock(c *vf.Ctx, i, K int) {
 			}
 		}
 	}
+	// observation only (two fields change, outside the single-field quantifier): the digest has no
+	// length framing, so moving a byte across the boundary of two adjacent byte fields keeps id and signature
+	if len(h.ChainID) > 4 {
+		m := clone(h)
+		m.PrevBlockHash = append([]byte{m.ChainID[len(m.ChainID)-1]}, m.PrevBlockHash...)
+		m.ChainID = m.ChainID[:len(m.ChainID)-1]
+		if bytes.Equal(blockID(m), id0) && verifyHdr(m) {
+			a.count("blk.boundary_shift_chainid_prevhash_same_id_and_signature_valid")
+		} else {
+			a.count("blk.boundary_shift_chainid_prevhash_detected")
+		}
+	}
 	if i < 2 {
 		out.Sample(map[string]interface{}{"kind": "block", "id": vf.Hex(id0), "blockNo": h.BlockNo, "fields": len(hdrTargets)})
 	}
@@ -319,6 +331,18 @@ func caseTx(c *vf.Ctx, i, K int) {
 					a.viol("txsign-digest/TxBody."+t.Path, fmt.Sprintf("tx signing digest unchanged after changing body field %s (%s)", t.Path, cl))
 				}
 			}
+		}
+	}
+	if len(body.Amount) >= 2 {
+		// observation only: Amount||Payload are hashed and signed without framing
+		m := clone(body)
+		m.Payload = append([]byte{m.Amount[len(m.Amount)-1]}, m.Payload...)
+		m.Amount = m.Amount[:len(m.Amount)-1]
+		mt := &types.Tx{Body: m}
+		if bytes.Equal(mt.CalculateTxHash(), id0) && verifyTx(mt, addr) {
+			a.count("tx.boundary_shift_amount_payload_same_id_and_signature_valid")
+		} else {
+			a.count("tx.boundary_shift_amount_payload_detected")
 		}
 	}
 	if i < 2 {
